@@ -1,5 +1,6 @@
 import GlueVerif.Lemmas.C12Registry
 import GlueVerif.Lemmas.Versioned
+import GlueVerif.Lemmas.C12Records
 import GlueVerif.Generated.C12Tables
 /-!
 # C12 — every serialisation protocol version ever registered still loads what it saved
@@ -98,6 +99,50 @@ theorem orig_set_violates_inv :
 example : Impl.outs [] [.set "k" (some 1) 5, .set "k" (some 2) 6, .set "k" (some 2) 9, .set "k" (some 4) 9,
     .set "k" (some 0) 9, .getitem "k", .getv "k" (some 1), .contains "j", .len] =
     [.done, .done, .keyError, .keyError, .valueError, .pair 6 2, .val 5, .bool false, .nat 1] := by decide
+
+
+/-! ## Record formats: `load_v (save_v x) = project_v x` (model of the saver / loader chains) -/
+
+open Records in
+/-- **Data, every protocol 1…5.**  The record the version-`v` saver writes is loaded by the
+version-`v` loader (selected through `_protocol`) into exactly the part of the dataset that
+protocol `v` carries: label, components, derived components, subsets, coords always; style from 2;
+key joins from 3; uuid from 4; meta from 5 — everything else is the constructor default.
+Protocol 3 stores one component per join side, hence the hypothesis for `v = 3`. -/
+theorem load_v_save_v_data (v : Nat) (hv : 1 ≤ v ∧ v ≤ 5) (d : DataO)
+    (hj : v = 3 → ∀ j ∈ d.joins, ∃ a b, j.own = [a] ∧ j.theirs = [b]) :
+    ∃ r, saveData v d = some r ∧ loadData r = some (projectData v d) :=
+  Records.Lemmas.data_roundtrip v hv d hj
+
+open Records in
+/-- **DataCollection, every protocol 1…4 × every Data protocol 1…5.**  For every collection the
+pair can represent, saving with those versions succeeds and loading returns `projectDC`: all
+datasets (projected as above) *including their arithmetic derived components* (protocols ≤ 3 keep a
+derived component only when its link is among the saved internal links — it always is), the
+external links, the groups (protocol 1: the plain subsets upgraded to groups on every dataset),
+the group counter from protocol 3 on. -/
+theorem load_v_save_v (cv dv : Nat) (hc : 1 ≤ cv ∧ cv ≤ 4) (hd : 1 ≤ dv ∧ dv ≤ 5) (dc : DCO)
+    (hrep : representable cv dv dc = true) :
+    ∃ r, saveDC cv dv dc = some r ∧ loadDC r = some (projectDC cv dv dc) :=
+  Records.Lemmas.dc_roundtrip cv dv hc hd dc (Records.Lemmas.representable_spec cv dv dc hrep)
+
+open Records in
+/-- the newest pair loses nothing but what is not observed: `project` is the identity there -/
+theorem newest_is_lossless (dc : DCO) : projectDC 4 5 dc = dc := by
+  have h : projectData 5 = id := funext fun d => by simp [projectData]
+  simp [projectDC, h]
+
+open Records in
+-- non-vacuity: a two-dataset collection with a derived component, a group and a key join is
+-- representable under every pair, a two-component join is refused by protocol 3 only
+example :
+    let d0 : DataO := ⟨"d0", [⟨"x", .int, [1, 2, 3]⟩], [.dbl "z" "x"], [⟨"s", 0, .gt "x" 1, ⟨1, 2, some 3⟩⟩],
+      ⟨1, 7, some 2⟩, [⟨1, ["x"], ["u"]⟩], some 0, [("k", "v")], false⟩
+    let d1 : DataO := ⟨"d1", [⟨"u", .int, [2, 3]⟩], [], [⟨"s", 0, .gt "x" 1, ⟨1, 2, some 3⟩⟩],
+      Style.default, [⟨0, ["u"], ["x"]⟩], some 1, [], true⟩
+    let dc : DCO := ⟨[d0, d1], [], [("s", ⟨1, 2, some 3⟩)], 1⟩
+    (representable 3 3 dc = true) ∧ (representable 4 5 dc = true) ∧
+    (saveData 3 { d0 with joins := [⟨1, ["x", "x"], ["u", "u"]⟩] } = none) := by decide
 
 /-! ## The chase loop, for every table (names of any type with decidable equality) -/
 
